@@ -21,6 +21,7 @@
    the one thing after which an object decorated while the switch was off need not be plain any more.            *)
 From Coq Require Import List Bool String Arith.
 From PV Require Import Base.Exn Model.EnvSwitch Spec.EnvSpec Proofs.EnvProofs Model.EnvEval Gen.Env.
+From PV Require Import Model.EnvOverlap Spec.EnvOverlapSpec Proofs.EnvOverlapProofs.
 Import ListNotations.
 Open Scope list_scope.
 
@@ -279,3 +280,59 @@ Example C09_domain :
                     OApply 0; ORedecorate (Direct DPedantic) 0 true; OSubDecorate (Kept 1) 2; OSetenv "2"]%string
     = [true; true; true; true; true; true; true; true; true; true; true; false].
 Proof. split; vm_compute; reflexivity. Qed.
+
+
+(* ---- overlapping decorations (Model/EnvOverlap.v) -------------------------------------------------------------------
+   A class decorator is at work for a while (guard first, then the namespace of the class is walked: descriptors are
+   read, the method decorator handed to for_all_methods is called).  What runs in between - in the same thread or in
+   another one - toggles the switch, decorates other objects, starts further class decorations.  xs = (s, st): st the
+   stack of decorations in progress, each with the value of the variable its guard saw.                              *)
+
+(* a decorator applied WHILE other decorations are in progress - whatever their guards saw -: the very object iff the
+   variable is "0" now *)
+Theorem C09_overlap_meanwhile_governed_by_switch_now : forall d s st, in_domain (env s) = true ->
+  (snd (xstep M (s, st) (XOp (ODecorate d))) = ODeco true <-> env s = Val "0"%string) /\
+  (snd (xstep M (s, st) (XOp (ODecorate d))) = ODeco false <-> (env s = Unset \/ env s = Val "1"%string)).
+Proof.
+  intros d s st Hd. rewrite (meanwhile_obs M C09_model_good (s, st) d Hd). cbn [fst].
+  apply in_domain_cases in Hd. destruct Hd as [H|[H|[H|[]]]]; rewrite <- H;
+    cbn [spec_enabled String.eqb Ascii.eqb Bool.eqb negb];
+    (split; split; intros; try match goal with D : _ \/ _ |- _ => destruct D end; try discriminate; auto).
+Qed.
+Print Assumptions C09_overlap_meanwhile_governed_by_switch_now.
+
+(* the decoration in progress, when it completes: the very object iff the variable was "0" when it was STARTED - whatever
+   the variable is now, whatever was decorated meanwhile *)
+Theorem C09_overlap_completion_governed_by_switch_at_start : forall s p st, in_domain (p_env p) = true ->
+  (snd (xstep M (s, p :: st) XEnd) = ODeco true <-> p_env p = Val "0"%string) /\
+  (snd (xstep M (s, p :: st) XEnd) = ODeco false <-> (p_env p = Unset \/ p_env p = Val "1"%string)).
+Proof.
+  intros s p st Hd. rewrite (end_obs M C09_model_good s p st Hd).
+  apply in_domain_cases in Hd. destruct Hd as [H|[H|[H|[]]]]; rewrite <- H;
+    cbn [spec_enabled String.eqb Ascii.eqb Bool.eqb negb];
+    (split; split; intros; try match goal with D : _ \/ _ |- _ => destruct D end; try discriminate; auto).
+Qed.
+Print Assumptions C09_overlap_completion_governed_by_switch_at_start.
+
+(* ALL finite histories with overlapping decorations, nested to any depth, from every in-domain start value: every
+   decorator result is the one the statement demands (Spec/EnvOverlapSpec.v: the value of the variable at the moment the
+   decorator is applied; for an overlapping decoration the moment it is started) *)
+Theorem C09_overlap_history : forall e h, in_domain e = true -> forallb xop_in_domain h = true ->
+  Forall2 deco_meets (snd (xrun M (init_state e, []) h)) (xdemand e [] h).
+Proof.
+  intros e h He Hh. apply (xrun_meets M C09_model_good h (init_state e, [])); [|exact Hh].
+  split; [exact He|constructor].
+Qed.
+Print Assumptions C09_overlap_history.
+
+(* non-vacuity: started enabled; meanwhile disable_pedantic() and @pedantic -> the very object; the switch is still
+   off when the class decoration completes -> it checks all the same.  And the mirror image *)
+Example C09_overlap_witness :
+  let h1 := [XBegin DForAllMethods; XOp ODisable; XOp (ODecorate DPedantic); XEnd; XOp (OCall 0); XOp (OCall 1)] in
+  let h2 := [XBegin DPedanticClass; XOp OEnable; XOp (ODecorate DPedantic); XNext; XOp (ODecorate DTraceClass); XEnd;
+             XOp (OCall 0); XOp (OCall 2)] in
+  snd (xrun M (init_state Unset, []) h1) = [ONone; ONone; ODeco true; ODeco false; OCalled Plain; OCalled Checked] /\
+  xdemand Unset [] h1 = [None; None; Some true; Some false; None; None] /\
+  snd (xrun M (init_state (Val "0"), []) h2) = [ONone; ONone; ODeco false; ONone; ODeco false; ODeco true; OCalled Checked; OCalled Plain] /\
+  xdemand (Val "0") [] h2 = [None; None; Some false; None; Some false; Some true; None; None].
+Proof. repeat split; vm_compute; reflexivity. Qed.
